@@ -97,6 +97,11 @@ def histories(tier, seed):
         out.append(H.mk_history("q%d" % n, H.random_history(rng, rng.randint(6, 30), two=True),
                                 {"e1": k1, "e2": k2}, cfgs=H.LC_CFGS))
         n += 1
+    # every other history obtains its engine objects from the package's factories (engine_collection), the others from
+    # the LibRDEngine constructor: two requests must give two objects with their own status
+    for i, h in enumerate(out):
+        if i % 2:
+            h["factories"] = True
     return out
 
 
